@@ -604,3 +604,16 @@ UNITS.append(Unit("heap.on_start_thread", "prealloc.c", enforce="on_start_thread
     ], loops={1: LOOP_PREALLOC, "count": 1})}, funcs=[TQ + ": thread_queue::on_start_thread"], min_obligations=8,
     doc="I: every pre-allocated task object is created with the stack size CONFIGURED for the free list it is put on (symbolic "
         "init_threads_count, all configurations of the sizes), under the queue lock, none leaked"))
+
+
+# ---- C16 unit reused (added after seeded change C12-7 was missed): "the size configured for its stack-size class" is the cached
+# ---- small/medium/large/huge_stacksize of runtime_configuration, which reconfigure() must recompute from the merged ini data
+# ---- (thread_manager copies them into thread_queue_init_parameters; create_thread_object sizes every stack from those)
+_c16 = {"__name__": "c16_reuse"}
+exec(compile(open("/verif/specs/C16/spec.py").read(), "/verif/specs/C16/spec.py", "exec"), _c16)
+for _u in _c16["UNITS"]:
+    if _u.name == "rtcfg.reconfigure":
+        _u.name = "c16." + _u.name
+        _u.template = "../C16/" + _u.template
+        UNITS.append(_u)
+META["trusted_base"] = list(META.get("trusted_base", [])) + ["unit c16.rtcfg.reconfigure is the C16 unit of the same name (specs/C16/reconf.c) with its trusted base"]
